@@ -23,6 +23,8 @@ def plan(tier):
     pl += [(PG.shutdown_in_callback("shutdown"), 1, PT), (PG.shutdown_in_callback("shutdown_wait"), 1, PT),
            (PG.with_body_raises(2, 2), 1, PT), (PG.with_body_raises(3, 1), 1, PT),
            (PG.shutdown_twice(2, True), 1, PT), (PG.shutdown_twice(2, False), 1, PT)]
+    pl += [(PG.nowait_then_wait(3, 2, None), 1, PT), (PG.nowait_then_wait(2, 1, 0.05), 1, PT),
+           (PG.nowait_then_wait(3, 2, None, "with"), 0, PT)]
     # submit racing with shutdown from another thread (either raises or the task runs):
     # starvation policy for the submitting thread + two preemptions
     pl += [(PG.submit_vs_shutdown(1, True), 2, dict(kinds=("P",), starve="parent:user",
